@@ -43,10 +43,13 @@ func init() {
 					if len(rest) == 1 && rest["[i]IndexChunk.Size"] == -1 {
 						return sign
 					}
-					if len(rest) == 2 && rest["[i]FormatTableItem.Offset"] == -1 {
-						for a, n := range rest {
-							if a != "[i]FormatTableItem.Offset" && strings.HasPrefix(a, "phi(") && n == 1 {
-								return sign
+					// the item may be addressed in place or through the range variable's copy
+					for _, off := range []string{"[i]FormatTableItem.Offset", "FormatTableItem.Offset"} {
+						if len(rest) == 2 && rest[off] == -1 {
+							for a, n := range rest {
+								if a != off && strings.HasPrefix(a, "phi(") && n == 1 {
+									return sign
+								}
 							}
 						}
 					}
@@ -152,6 +155,9 @@ func c04Funnel(c *Ctx) {
 				}
 			}
 		}
+		if !okW && idxParam != nil {
+			okW = c04WritesIndex(fn, idxParam, 0)
+		}
 		c.verdict(okW, fnKey(fn)+":encodes-via-WriteTo", fn.Pos(), "the given index is written through Index.WriteTo", "StoreIndex does not write the given index through Index.WriteTo")
 		// local files: truncating create
 		for _, o := range calls(fn, named("os.OpenFile")) {
@@ -200,7 +206,11 @@ func c04Codec(c *Ctx) {
 	// the decoder rejects a non-zero fill and a wrong marker; expects Size MaxUint64
 	if fn := c.mustFn("FormatDecoder.Next"); fn != nil {
 		checks := map[string]bool{}
-		for _, b := range fn.Blocks {
+		var blocks []*ssa.BasicBlock
+		for _, g := range fnsDeep(fn) {
+			blocks = append(blocks, g.Blocks...)
+		}
+		for _, b := range blocks {
 			iff := lastIf(b)
 			if iff == nil {
 				continue
@@ -218,7 +228,21 @@ func c04Codec(c *Ctx) {
 			if neqOnTrue {
 				to = b.Succs[0]
 			}
-			fails := len(c.edgeMustFail(fn, b, to, nil)) == 0
+			g := b.Parent()
+			fails := len(c.edgeMustFail(g, b, to, nil)) == 0
+			if fails && g != fn {
+				// the check sits in a new helper: its error must fail the decoder at every call site
+				for _, cs := range helperSites[g] {
+					site, isCall := cs.(*ssa.Call)
+					if !isCall {
+						fails = false
+						continue
+					}
+					if _, badH := errPropagates(c, site.Parent(), func(_ string, call *ssa.Call) bool { return call == site }, errPropOpts{}); len(badH) > 0 {
+						fails = false
+					}
+				}
+			}
 			fromRead := hasOrigin(cm.x, func(o string) bool { return o == "call:(desync.reader).ReadUint64#0" })
 			switch {
 			case k.Value.ExactString() == marker && fromRead && fails:
@@ -496,6 +520,71 @@ func isNamedResult(fn *ssa.Function, al *ssa.Alloc) bool {
 	for i := 0; i < res.Len(); i++ {
 		if n := res.At(i).Name(); n != "" && n == al.Comment {
 			return true
+		}
+	}
+	return false
+}
+
+// c04WritesIndex: fn (or a closure of it, or a new helper it hands the index to - also through
+// "go helper(idx, w)") calls Index.WriteTo on the index value idx.
+func c04WritesIndex(fn *ssa.Function, idx ssa.Value, depth int) bool {
+	if depth > 3 {
+		return false
+	}
+	var derives func(v ssa.Value, d int) bool
+	derives = func(v ssa.Value, d int) bool {
+		if d > 5 {
+			return false
+		}
+		if v == idx {
+			return true
+		}
+		switch x := v.(type) {
+		case *ssa.Alloc:
+			for _, st := range storesTo(x) {
+				if derives(st.Val, d+1) {
+					return true
+				}
+			}
+			return false
+		case *ssa.FreeVar:
+			for _, cv := range captured(x) {
+				if derives(cv, d+1) {
+					return true
+				}
+			}
+			return false
+		case *ssa.UnOp:
+			if x.Op == token.MUL {
+				return derives(x.X, d+1)
+			}
+		}
+		for _, l := range leaves(v) {
+			if l != v && derives(l, d+1) {
+				return true
+			}
+		}
+		return false
+	}
+	for _, f := range withClosures(fn) {
+		for _, b := range f.Blocks {
+			for _, ins := range b.Instrs {
+				ci, ok := ins.(ssa.CallInstruction)
+				if !ok {
+					continue
+				}
+				args := ci.Common().Args
+				if strings.HasSuffix(callee(ci), "desync.Index).WriteTo") && len(args) > 0 && derives(args[0], 0) {
+					return true
+				}
+				if h := directCallee(ci); h != nil && newHelpers[h] && h.Blocks != nil {
+					for k, a := range args {
+						if k < len(h.Params) && derives(a, 0) && c04WritesIndex(h, h.Params[k], depth+1) {
+							return true
+						}
+					}
+				}
+			}
 		}
 	}
 	return false
